@@ -5,7 +5,8 @@ Independent of pytype: nothing here imports pytype; the stub *text* pytype wrote
 is the observable.  Types are normalised into nested tuples:
 
   ("n", "int")                         a (dotted) name, upstream-module / typing / builtins prefix stripped
-  ("u", (t1, t2, ...))                 a union: flattened, de-duplicated, sorted; Optional[X] == Union[X, None]
+  ("u", (t1, t2, ...))                 a union: flattened, de-duplicated, sorted; Optional[X] == Union[X, None];
+                                       a bare generic class G absorbs G[...] members (G is G[Any])
   ("g", head, (arg, ...))              a parameterised type; typing aliases (List, Dict, ...) lower-cased
   ("l", (t, ...))                      a bracketed list (Callable parameters)
   ("c", repr)                          a literal constant (inside Literal[...]); ("e",) for `...`
@@ -31,8 +32,11 @@ class Skip(Exception):
 class Normalizer:
   """prefixes: module prefixes to strip (e.g. {"a", "pkg.sub.a"})."""
 
-  def __init__(self, prefixes=()):
+  def __init__(self, prefixes=(), foreign=()):
     self.prefixes = sorted(prefixes, key=len, reverse=True)
+    self.foreign = set(foreign)     # names that must only appear module-qualified
+    self.bare_foreign = []          # ... and the ones that appeared bare
+    self.absorbed = 0               # G[...] union members absorbed by a bare G
 
   def name(self, dotted):
     for p in self.prefixes:
@@ -61,6 +65,8 @@ class Normalizer:
           raise Skip("unparseable string annotation")
       return ("c", repr(node.value))
     if isinstance(node, ast.Name):
+      if node.id in self.foreign:
+        self.bare_foreign.append(node.id)
       return ("n", self.name(node.id))
     if isinstance(node, ast.Attribute):
       parts = []
@@ -105,7 +111,12 @@ class Normalizer:
         flat.extend(m[1])
       else:
         flat.append(m)
-    uniq = sorted(set(flat), key=repr)
+    # A bare generic class G is G[Any]; pytype's union simplification lets it absorb every
+    # G[...] next to it (Union[list, list[int]] prints as list), so both sides are normalised so.
+    bare = {m[1] for m in flat if m[0] == "n"}
+    kept = [m for m in flat if not (m[0] == "g" and m[1] in bare)]
+    self.absorbed += len(flat) - len(kept)
+    uniq = sorted(set(kept), key=repr)
     if len(uniq) == 1:
       return uniq[0]
     return ("u", tuple(uniq))
@@ -163,9 +174,9 @@ class ClassInfo:
 class Stub:
   """A stub read with `ast`.  Raises SyntaxError if Python cannot parse it."""
 
-  def __init__(self, text, prefixes=()):
+  def __init__(self, text, prefixes=(), foreign=()):
     self.text = text
-    self.N = Normalizer(prefixes)
+    self.N = Normalizer(prefixes, foreign)
     self.tree = ast.parse(text)
     self.consts = {}       # name -> AnnAssign annotation node
     self.funcs = {}        # name -> [FunctionDef]
